@@ -93,6 +93,26 @@ def gen_stale(rng):
     return ops
 
 
+def gen_global(rng, n):
+    """the global cache object: strings are allocated/released through its SimpleStringCacheAllocator and the
+    object is destroyed while some buffers (cached, free-listed, uncached) are still outstanding"""
+    ops = ["gcreate"]
+    live = []
+    k = 0
+    for _ in range(n):
+        if rng.random() < 0.6 or not live:
+            size = rng.choice(SIZES) if rng.random() < 0.8 else rng.randint(1, 1024)
+            k += 1
+            ops.append("alloc %d g%d" % (size, k))
+            live.append(("g%d" % k, size))
+        else:
+            i = rng.randrange(len(live))
+            label, size = live.pop(i)
+            ops.append("dealloc %s %d" % (label, size))
+    ops.append("gdestroy")
+    return ops
+
+
 STALE_SIG = "C18:stale-buffer-read-after-clear"
 
 
@@ -120,6 +140,8 @@ def generate(rng, tier):
         out.append(("malformed", gen_case(rng, rng.choice([5, 20, 40]), malformed=True)))
     for i in range(10):
         out.append(("stale", gen_stale(rng)))
+    for i in range(n // 8):
+        out.append(("global", gen_global(rng, rng.choice([0, 1, 3, 8, 20, 40]))))
     return out
 
 
